@@ -182,7 +182,7 @@ class ConnTypes(ElabPass):
 
             # Recursively check that each Bundle is compatible
             for key, val in bundle.bundles.items():
-                sts = self.check_bundles_compatible(val.of, other.bundles[key].of)
+                sts = self.check_bundles_compatible(val.of, other.bundles[key])
                 if not isinstance(sts, Valid):
                     return sts
 
